@@ -107,6 +107,10 @@ def check(ctx):
     # chain, never left to a callee's default (sa/rules/forwarding.py)
     # negative values survive validation as negative values: the integer
     # type is chosen from the rounded extremes (rule of C16)
+    # gene order invariance for sparse queries: stored values are placed
+    # by their column index (rule of C05)
+    from .C05 import check_placed_by_column_index
+    check_placed_by_column_index(ctx)
     from .C16 import check_int_width
     check_int_width(ctx)
     # computed values are not forced back into the element type of the
